@@ -68,6 +68,12 @@ K("awkward_ListArray_getitem_next_range_spreadadvanced",
 K("awkward_ListArray_localindex",
   extents={"toindex": "offsets[length]"},
   requires=["offsets[0] >= 0", SORTED("offsets", "length + 1")],
+  # C05: local_index gives 0..n-1 inside every list
+  loops={"L0": ["0 <= i", "forall(q, 0, i, forall(r, offsets[q], offsets[q + 1], toindex[r] == r - offsets[q]))"],
+         "L0.0": ["offsets[i] <= j",
+                  "forall(q, 0, i, forall(r, offsets[q], offsets[q + 1], toindex[r] == r - offsets[q]))",
+                  "forall(r, offsets[i], j, toindex[r] == r - offsets[i])"]},
+  ensures_ok=["forall(q, 0, length, forall(r, offsets[q], offsets[q + 1], toindex[r] == r - offsets[q]))"],
   serves=["C05", "C12", "C13"])
 
 K("awkward_ListArray_getitem_jagged_numvalid",
